@@ -41,6 +41,41 @@ def lookupGuards (key : List Nat) : List (List Nat × List Tok) → List Tok
 def needsGuard (txt : List Nat) (next : Tok) : Bool :=
   (lookupGuards ((txt.take 2).map lower) varGuards).contains next
 
+/-- what `needs_guard` finds when it climbs from the name node to the first ancestor-or-self that
+has a next named sibling (`minifier.rs` `needs_guard`, the `while parent.next_named_sibling()==None`
+loop) -/
+inductive Next where
+  /-- no ancestor-or-self has a next named sibling: `return false` -/
+  | none
+  /-- the next named sibling is a token node (kind `tok_*`) -/
+  | tok (t : Tok)
+  /-- the next named sibling is the `subscript` of an array reference -/
+  | subscript
+  /-- any other named node (`fcall`, `sfcall`, `unary_aexpr`, `str`, `var_*`, …); `adjacent` =
+  `parent.next_sibling()==Some(next)`, i.e. no anonymous node (`;` `,` `(` `)`) lies between the
+  climbed node and it — PRINT items run together -/
+  | node (adjacent : Bool)
+deriving DecidableEq, Repr
+
+/-- `needs_guard` in full: the adjacency rule first (nothing separates the item that ends in the
+name from a following non-token node: always guard), else the table lookup on the node kind, which
+can only succeed for token kinds (the translator checks that every value of `VAR_GUARDS_JSON` is a
+token kind) -/
+def needsGuardNode (txt : List Nat) : Next → Bool
+  | .none => false
+  | .tok t => needsGuard txt t
+  | .subscript => false
+  | .node adjacent => adjacent
+
+def parseNext (s : String) : Option Next :=
+  if s == "none" then some .none
+  else if s == "sub" then some .subscript
+  else if s == "node1" then some (.node true)
+  else if s == "node0" then some (.node false)
+  else match s.toNat? with
+    | some c => (Tok.all.find? (fun t => t.code == c)).map Next.tok
+    | none => Option.none
+
 def parseFollower (s : String) : Option Tok :=
   match s.toNat? with
   | some c => Tok.all.find? (fun t => t.code == c)
